@@ -353,7 +353,7 @@ def run(ctx):
     quick = ctx.quick
     drivers.register(DRIVERS)
     drivers.get("mpi_rma")
-    n_prog = 90 if quick else 700
+    n_prog = 70 if quick else 700
     nvar = 3 if quick else 6
     progs = directed_programs()
     n_directed = len(progs)
@@ -425,9 +425,9 @@ def run(ctx):
     ctx.cov["traces_validated_against_impl"] += len(jobs)
     # confirm by re-running the same case
     reported = set()
-    for i, vi, hosts, delays in bad:
+    again = vlib.parallel_map(lambda b: run_one(ctx, "c%d_%d" % (b[0], b[1]), progs[b[0]], b[2], b[3]), bad)
+    for (i, vi, hosts, delays), o in zip(bad, again):
         p = progs[i]
-        o = run_one(ctx, "c%d_%d" % (i, vi), p, hosts, delays)
         key = json.dumps({"mem": o["mem"], "fet": o["fet"]}, sort_keys=True)
         if o["how"] == "normal" and not o["errs"] and key in outs[i]:
             ctx.cov["unconfirmed_rejections"] = ctx.cov.get("unconfirmed_rejections", 0) + 1
